@@ -2,10 +2,11 @@
 (* Model-checking / generation instances of StateStore: the write lists.     *)
 EXTENDS StateStore, Randomization
 CONSTANTS MaxWrites,   \* longest write list
-          Strides      \* (generation pool) key strides of the structured write lists
+          Strides,     \* (generation pool) key strides of the structured write lists
+          SimWidth     \* (generation) number of write lists drawn per step
 
 \* every write list of length 0..MaxWrites (overwrites and duplicates inside a list included)
-MCBatches == UNION {[1..i -> Keys \X Vals] : i \in 0..MaxWrites}
+MCBatches(n) == UNION {[1..i -> Keys \X Vals] : i \in 0..MaxWrites}
 
 \* structured pool for large alphabets: runs of MaxWrites.. 1 writes that walk the key space
 \* with a stride (1 = ascending run, NKeys-1 = descending run, 0 = the same key repeatedly,
@@ -13,5 +14,27 @@ MCBatches == UNION {[1..i -> Keys \X Vals] : i \in 0..MaxWrites}
 Walk(a, d, n, v) == [i \in 1..n |-> <<((a - 1 + (i - 1) * d) % NKeys) + 1, ((v + i) % NVals) + 1>>]
 PoolBatches == {<<>>} \cup {Walk(a, d, n, v) : a \in Keys, d \in Strides, n \in 1..MaxWrites, v \in Vals}
 \* generation: a few randomly drawn lists per step keep the successor set small
-SimBatches == RandomSubset(3, PoolBatches)
+SimBatches(n) == RandomSubset(SimWidth + 0 * n, PoolBatches)
+
+\* Generation (-simulate): TLC draws one of the disjuncts below at random, so their multiplicity is
+\* the weight of an operation; reads are taken at non-empty roots only (every state-changing step
+\* already carries the complete read table chk), and the refused Commit / Rollback and Reopen are
+\* kept rare.  Same steps as Next, nothing else.
+NonEmptyCommitted == committed \ {EmptyRoot}
+GSet == \E p \in committed, ws \in Batches(nops), h \in Heights : Set(p, ws, h)
+GMemSet == \E p \in committed, ws \in Batches(nops), h \in Heights : MemSet(p, ws, h)
+GRedo == /\ "Redo" \in Ops
+         /\ \E r \in Known \ {EmptyRoot}, h \in Heights :
+               r[1] \in committed /\ (Set(r[1], r[2], h) \/ MemSet(r[1], r[2], h))
+GCommit == \E r \in pending : Commit(r)
+GRollback == \E r \in pending : Rollback(r)
+GRare == /\ nops % 3 = 2
+         /\ \/ \E r \in Known \ {EmptyRoot} : CommitNP(r) \/ RollbackNP(r)
+            \/ Reopen
+GReopen == pending # {} /\ Reopen
+GIter == \E r \in NonEmptyCommitted, lo \in {RandomElement(Bounds)}, hi \in {RandomElement(Bounds)},
+            asc \in BOOLEAN, incl \in BOOLEAN, lim \in 0..2 : Iter(r, lo, hi, asc, incl, lim)
+GGet == \E r \in NonEmptyCommitted, k \in Keys : Get(r, k)
+GenNext == GSet \/ GMemSet \/ GMemSet \/ GRedo \/ GCommit \/ GCommit \/ GRollback \/ GRare \/ GReopen \/ GIter \/ GIter \/ GGet
+GenSpec == Init /\ [][GenNext]_vars
 =============================================================================
